@@ -48,6 +48,7 @@ class Prop(object):
                 for b in red:
                     u.append(('texts', {'first': a, 'second': b, 'max': 4, 'alphabet': red}))
         u.append(('slices', {}))
+        u.append(('gpg', {}))
         return u
 
     def run_case(self, check, case):
@@ -185,6 +186,47 @@ class Prop(object):
                     self._one_text(r, text, case)
         r.samples.append({'lines': list(seqs[-1])[:3], 'texts': n})
         r.extra['excluded_lone_cr'] = 1
+        return r
+
+    def c_gpg(self, case):
+        """Cleartext messages written by GnuPG 2.2.40 (trailing blanks, dash lines, From lines, CRLF, UTF-8, empty text, two signers)."""
+        import pgpy
+        from mc import gpgfix as G
+        r = Res()
+        if not G.available():
+            r.states = r.transitions = 1
+            r.outcomes['gpg-vectors-absent'] += 1
+            return r
+        pubs = {}
+        for n in G.NAMES:
+            k = pgpy.PGPKey.from_blob(G.read('key.%s.pub.gpg' % n))[0]
+            pubs[str(k.fingerprint.keyid)] = k
+            for sk in k.subkeys:
+                pubs[sk] = k
+        for f in G.files('clear.*.asc'):
+            r.states += 1
+            r.transitions += 1
+            probs = []
+            try:
+                text = G.read(f).decode('utf-8')
+                want = rarmor.dearmor(text)['cleartext']
+                m = pgpy.PGPMessage.from_blob(text)
+                if m.message.replace('\r\n', '\n') != want:
+                    probs.append('text read as %r, independent reader: %r' % (m.message[:40], want[:40]))
+                for s in m.signatures:
+                    if not pubs[s.signer].verify(m):
+                        probs.append('signature by %s does not verify' % s.signer)
+                if not m.signatures:
+                    probs.append('no signatures found')
+                m2 = pgpy.PGPMessage.from_blob(str(m))
+                if m2.message != m.message or sorted(bytes(x) for x in m2.signatures) != sorted(bytes(x) for x in m.signatures):
+                    probs.append('re-written message reads back differently')
+            except Exception as e:
+                probs.append(repr(e))
+            r.outcomes['gpg:' + ('ok' if not probs else 'violation')] += 1
+            if probs:
+                r.viol('gpg', {'kind': 'gpg-cleartext', 'doc': f.split('.')[2] if f.count('.') > 3 else 'other'}, dict(case, only=f), 'GnuPG-made cleartext message %s: %s' % (f, '; '.join(probs[:2])))
+        r.samples.append({'gpg_cleartext': len(G.files('clear.*.asc'))})
         return r
 
     def c_slices(self, case):
